@@ -261,22 +261,22 @@ theorem power_levels_eq (c : Ctx) (p : Provider) (hf : Fresh p c) (he : c.plErr 
 
 theorem roomVersionRecognised_eq (kvs : List (Bytes × JVal)) :
     roomVersionRecognised kvs =
-      (!(decStringPtr (lookupField kvs b!"room_version")).err &&
-       match (decStringPtr (lookupField kvs b!"room_version")).val with
+      (!(decStringPtr (lookupExact kvs b!"room_version")).err &&
+       match (decStringPtr (lookupExact kvs b!"room_version")).val with
        | some v => knownRoomVersion v
        | none => true) := by
   unfold roomVersionRecognised
-  cases lookupField kvs b!"room_version" with
+  cases lookupExact kvs b!"room_version" with
   | none => rfl
   | some x => cases x <;> simp [decStringPtr]
 
 theorem creatorPresent_eq (kvs : List (Bytes × JVal)) :
     creatorPresent lib kvs =
-      (!(decStringPtr (lookupField kvs b!"creator")).err && (decStringPtr (lookupField kvs b!"creator")).val.isSome) := by
+      (!(decStringPtr (lookupExact kvs b!"creator")).err && (decStringPtr (lookupExact kvs b!"creator")).val.isSome) := by
   unfold creatorPresent
   have hd13 : lib.d13_creatorString = true := rfl
   simp only [hd13, if_true]
-  cases lookupField kvs b!"creator" with
+  cases lookupExact kvs b!"creator" with
   | none => rfl
   | some x => cases x <;> simp [decStringPtr]
 
@@ -307,12 +307,12 @@ theorem checkCreateV1_eq (e : Event) (u : UserID) (hu : userOf e.sender = some u
       cases v with
       | obj kvs =>
         simp only [roomVersionRecognised_eq, creatorPresent_eq]
-        cases (decStringPtr (lookupField kvs b!"creator")).err <;>
-        cases (decStringPtr (lookupField kvs b!"room_version")).err <;>
-        cases (decStringPtr (lookupField kvs b!"creator")).val <;>
-        cases (decStringPtr (lookupField kvs b!"room_version")).val <;> simp
+        cases (decStringPtr (lookupExact kvs b!"creator")).err <;>
+        cases (decStringPtr (lookupExact kvs b!"room_version")).err <;>
+        cases (decStringPtr (lookupExact kvs b!"creator")).val <;>
+        cases (decStringPtr (lookupExact kvs b!"room_version")).val <;> simp
         all_goals (split <;> simp_all)
-      | null => simp [lookupField, roomVersionRecognised, creatorPresent]
+      | null => simp [lookupExact, roomVersionRecognised, creatorPresent]
       | _ => simp
 
 theorem checkCreateV2_eq (e : Event) (u : UserID) (hu : userOf e.sender = some u) (row : VGen.VersionRow)
@@ -342,10 +342,10 @@ theorem checkCreateV2_eq (e : Event) (u : UserID) (hu : userOf e.sender = some u
       cases v with
       | obj kvs =>
         simp only [roomVersionRecognised_eq]
-        cases (decStringPtr (lookupField kvs b!"room_version")).err <;>
-        cases (decStringPtr (lookupField kvs b!"room_version")).val <;> simp
+        cases (decStringPtr (lookupExact kvs b!"room_version")).err <;>
+        cases (decStringPtr (lookupExact kvs b!"room_version")).val <;> simp
         all_goals (split <;> simp_all)
-      | null => simp [lookupField, roomVersionRecognised]
+      | null => simp [lookupExact, roomVersionRecognised]
       | _ => simp
 
 theorem userOf_nil : userOf [] = none := by decide
@@ -373,10 +373,10 @@ theorem slice_valid (xs : List JVal) :
 
 theorem additionalCreatorsValid_eq (kvs : List (Bytes × JVal)) :
     additionalCreatorsValid kvs =
-      (!(decStringSlice (lookupField kvs b!"additional_creators")).err &&
-        ((decStringSlice (lookupField kvs b!"additional_creators")).val.getD []).all (fun c => (userOf c).isSome)) := by
+      (!(decStringSlice (lookupExact kvs b!"additional_creators")).err &&
+        ((decStringSlice (lookupExact kvs b!"additional_creators")).val.getD []).all (fun c => (userOf c).isSome)) := by
   unfold additionalCreatorsValid
-  cases lookupField kvs b!"additional_creators" with
+  cases lookupExact kvs b!"additional_creators" with
   | none => rfl
   | some x =>
     cases x with
@@ -414,7 +414,7 @@ theorem any_bad_eq {l : List Bytes} (h : l.all (fun u => (parseUserID? u).isSome
 theorem checkCreateV3_eq (e : Event) (u : UserID) (row : VGen.VersionRow)
     (hrow : e.row = some row) (hc : row.checkCreateEvent = "checkCreateEventV3")
     (hdom : (match contentFields e.content with
-            | some kvs => (decStringSlice (lookupField kvs b!"additional_creators")).val.getD [] |>.all
+            | some kvs => (decStringSlice (lookupExact kvs b!"additional_creators")).val.getD [] |>.all
                             (fun u => (parseUserID? u).isSome)
             | none => true) = true) :
     accepts (checkCreateEvent e u) = some (noRoomIDField e &&
@@ -427,8 +427,8 @@ theorem checkCreateV3_eq (e : Event) (u : UserID) (row : VGen.VersionRow)
   simp only [hrow, hc, beq_self_eq_true, if_true, e1, e2, Bool.false_eq_true, if_false]
   have main : ∀ kvs : List (Bytes × JVal), contentFields e.content = some kvs →
       accepts (
-          let rv := decStringPtr (lookupField kvs b!"room_version")
-          let ac := decStringSlice (lookupField kvs b!"additional_creators")
+          let rv := decStringPtr (lookupExact kvs b!"room_version")
+          let ac := decStringSlice (lookupExact kvs b!"additional_creators")
           if rv.err || ac.err then notAllowed
           else if (match rv.val with | some v => !knownRoomVersion v | none => false) then notAllowed
           else
@@ -444,10 +444,10 @@ theorem checkCreateV3_eq (e : Event) (u : UserID) (row : VGen.VersionRow)
     rw [hk] at hdom
     simp only at hdom
     simp only [any_none_false hdom, any_bad_eq hdom, roomVersionRecognised_eq, additionalCreatorsValid_eq, noRoomIDField_eq]
-    cases (decStringPtr (lookupField kvs b!"room_version")).err <;>
-    cases (decStringSlice (lookupField kvs b!"additional_creators")).err <;>
-    cases (decStringPtr (lookupField kvs b!"room_version")).val <;>
-    cases ((decStringSlice (lookupField kvs b!"additional_creators")).val.getD []).all (fun c => (userOf c).isSome) <;>
+    cases (decStringPtr (lookupExact kvs b!"room_version")).err <;>
+    cases (decStringSlice (lookupExact kvs b!"additional_creators")).err <;>
+    cases (decStringPtr (lookupExact kvs b!"room_version")).val <;>
+    cases ((decStringSlice (lookupExact kvs b!"additional_creators")).val.getD []).all (fun c => (userOf c).isSome) <;>
     cases (decString (lookupField e.obj b!"room_id")).err <;> simp
     all_goals (try by_cases hv : (decString (lookupField e.obj b!"room_id")).val = [])
     all_goals (repeat' split)
@@ -464,7 +464,7 @@ theorem create_eq (c : Ctx) (e : Event) (row : VGen.VersionRow) (sv : SpecVersio
     (hrow : e.row = some row) (hri : RowIs row sv) (hs : (parseUserID? e.sender).isSome = true)
     (hd1 : sv.createRules = 3 ∨ (domainFromID (e.roomID.drop 1)).isSome = true)
     (hd2 : (match contentFields e.content with
-            | some kvs => (decStringSlice (lookupField kvs b!"additional_creators")).val.getD [] |>.all
+            | some kvs => (decStringSlice (lookupExact kvs b!"additional_creators")).val.getD [] |>.all
                             (fun u => (parseUserID? u).isSome)
             | none => true) = true) :
     accepts (c.createEventAllowed e) = some (ruleCreate lib sv e) := by
